@@ -94,6 +94,14 @@ Theorem C12_no_request_after_close : forall calls tr s, FileLock.frun8 (FileLock
 Proof. exact FileLockP.no_request_after_close. Qed.
 Print Assumptions C12_no_request_after_close.
 
+(* "exactly one close request has been sent": a Close call that returned without error has written its CLOSE, no other CLOSE
+   was written, and it is the last request on the wire *)
+Theorem C12_successful_close_sent_exactly_one : forall calls tr s c t, FileLock.frun8 (FileLock.finit calls) tr = Some s ->
+  FileLock.thr_of c (FileLock.threads s) = Some t -> FileLock.kind t = FileLock.MClose -> FileLock.st t = FileLock.SDone false ->
+  exists pre c', FileLock.wire s = pre ++ [FileLock.WClose c'] /\ FileLockP.noclose pre.
+Proof. exact FileLockP.successful_close_sent_exactly_one. Qed.
+Print Assumptions C12_successful_close_sent_exactly_one.
+
 Theorem C12_closed_stays : forall s l s', FileLock.fstep s l = Some s' -> FileLock.closed s = true -> FileLock.closed s' = true.
 Proof. exact FileLockP.closed_stays. Qed.
 Print Assumptions C12_closed_stays.
